@@ -13,8 +13,10 @@ Every generated program (4 languages) is mutated by the real TypeErasure
      arguments and expected type; an undetermined type parameter gets what
      the target language's compiler gives it) finds the program well-typed;
  (c) for Java, javac accepts the erased translation (shared with C02);
- thorough: other feasible subsets of omittable nodes than the one the
- mutation picks are applied exactly as visit_func_decl applies them."""
+ other subsets: the mutation picks *one* random feasible subset of the
+ omittable nodes per function; `OTHER_SUBSETS` further independent erasures of
+ deep copies of the same program (other RNG seeds, hence other subsets) are
+ judged the same way, and the set of distinct erased texts is counted."""
 import copy
 
 from vlib import boot, mutdiff, pg, progcheck, rc
@@ -33,6 +35,7 @@ ASSUMPTIONS = [
 ]
 MIN_NONTRIVIAL = {'quick': 150, 'thorough': 4000}
 NSHARDS = 16
+OTHER_SUBSETS = {'quick': 2, 'thorough': 6}
 HARD_TIMEOUT = {'quick': 1800, 'thorough': 5 * 3600}
 
 
@@ -129,6 +132,10 @@ def make_judge(col):
             col.feature('input_rejected_by_RC(C01 territory)')
             return [], False, None, progcheck.text_key(text0) + 'skip'
         seed0 = case.seed or len(case.tape or []) or 1
+        try:
+            pristine = copy.deepcopy(prog)
+        except RecursionError:
+            pristine = None
         out = []
         total = 0
         for rnd_, stage in ((seed0 * 7 + 1, 'E1'), (seed0 * 7 + 2, 'E2')):
@@ -146,6 +153,24 @@ def make_judge(col):
             text1 = pg.translate(prog, lang)
         except Exception:
             text1 = text0
+        # other feasible subsets of the same program
+        if total and pristine is not None:
+            texts = {text1}
+            for j in range(OTHER_SUBSETS[col.tier]):
+                twin = copy.deepcopy(pristine)
+                r = judge_erasure(col, case, twin, lang, seed0 * 7 + 11 + j, 'S%d' % j)
+                if r is None:
+                    break
+                viols, removed = r
+                total += removed
+                for sig, d in viols:
+                    out.append((sig, dict(d, lang=lang, stage='S%d' % j)))
+                try:
+                    texts.add(pg.translate(twin, lang))
+                except Exception:
+                    pass
+                col.add_extra('other_subset_erasures')
+            col.add_extra('other_subset_distinct_texts', len(texts) - 1)
         if total == 0 and text1 != text0:
             out.append(('C03/text-changed-without-removed-annotation', {'lang': lang}))
         sample = lambda: {'lang': lang, 'seed': case.seed, 'mode': case.mode, 'switches': case.switches,
